@@ -130,11 +130,11 @@ int main(int argc, char** argv) {
     }
   }
   rec_create(0, MI_COMMIT_MASK_BITS);
-  const int nops = (thorough ? 20000 : 1500);
+  const int nops = (thorough ? 10000 : 1500);
   for (int i = 0; i < nops; i++) rec_ops();
 
   // mi_segment_commit_mask
-  const int nseg = (thorough ? 200000 : 12000);
+  const int nseg = (thorough ? 100000 : 12000);
   for (int i = 0; i < nseg; i++) {
     int kind = (prng_below(&G, 25) == 0 ? 1 : 0);
     size_t info = 1 + prng_below(&G, 3);
@@ -164,7 +164,7 @@ int main(int argc, char** argv) {
 
   // mi_os_page_align_areax
   const size_t ps = _mi_os_page_size();
-  const int nal = (thorough ? 200000 : 10000);
+  const int nal = (thorough ? 100000 : 10000);
   for (int i = 0; i < nal; i++) {
     uintptr_t addr = (prng_below(&G, 3) == 0 ? (uintptr_t)prng_sized(&G) : ((uintptr_t)1 << 40) + prng_below(&G, 1 << 20) * ps);
     switch (prng_below(&G, 5)) { case 0: break; case 1: addr += 1; break; case 2: addr -= (addr > 0 ? 1 : 0); break; case 3: addr += prng_below(&G, ps); break; default: break; }
